@@ -1,142 +1,362 @@
-"""C14 tie: the real RandomUDSServer behind UDSServerTransport.handle_request / handle_client, fed arbitrary request
-histories; every reply goes through the real client-side acceptance test helpers.parse_pdu.
+"""C14 tie, real side: the real RandomUDSServer behind the real UDSServerTransport.handle_request (and
+TCPUDSServerTransport.handle_client on in-memory streams), fed request histories; every reply goes through the real
+client-side acceptance test helpers.parse_pdu; every random draw of the handler call is recorded.
 
-run_model(seed, params, history) -> list of per-request observations
-  {"req": hex, "reply": hex|None, "exc": name|None, "session_ok": bool, "client": "accepted"|"suppressed"|<exception name>}
+History items (JSON-able):
+    {"adv": ticks, "pdu": hex}                              a request `adv` ticks of 0.25 s after the previous one
+    {"adv": ticks, "key": [type, kind, suppress]}           SendKey whose key is derived from the previous reply:
+                                                            kind = right | wrong | short | long
+    optional "ctor": name of the gallia request class the PDU was built with (the object is rebuilt by `from_pdu`)
 """
 import asyncio
+import random
 import types
 
+from common import hx
 
-def structured_requests(rng, srv):
-    """mostly valid requests built from gallia's own request classes, aimed at what this model offers"""
-    from gallia.services.uds.core import service as s
 
-    sessions = sorted(srv.services.keys())
-    out = []
+class Clock:
+    def __init__(self):
+        self.t = 1000.0
 
-    def did():
-        return rng.choice([0xF186, 0xF190, 0x0000, 0xFFFF, rng.randrange(0x10000)])
+    def __call__(self):
+        return self.t
 
-    makers = [
-        lambda: s.DiagnosticSessionControlRequest(rng.choice(sessions + [rng.randrange(1, 0x7F)]), rng.random() < 0.3),
-        lambda: s.ECUResetRequest(rng.choice([1, 2, 3, 4, 5, rng.randrange(1, 0x7F)]), rng.random() < 0.3),
-        lambda: s.RequestSeedRequest(rng.choice([1, 3, 5, 0x11, 0x7D]), rng.choice([b"", b"\x01\x02"]), rng.random() < 0.2),
-        lambda: s.TesterPresentRequest(rng.random() < 0.4),
-        lambda: s.ReadDataByIdentifierRequest(did()),
-        lambda: s.ReadDataByIdentifierRequest([did() for _ in range(rng.randint(2, 5))]),
-        lambda: s.WriteDataByIdentifierRequest(did(), bytes(rng.randrange(256) for _ in range(rng.randint(1, 20)))),
-        lambda: s.StartRoutineRequest(did(), rng.choice([b"", b"\x00", b"\xde\xad\xbe\xef"]), rng.random() < 0.2),
-        lambda: s.StopRoutineRequest(did(), b"", rng.random() < 0.2),
-        lambda: s.RequestRoutineResultsRequest(did(), b"", rng.random() < 0.2),
-        lambda: s.ReturnControlToECURequest(did()),
-        lambda: s.ShortTermAdjustmentRequest(did(), b"\x01", b""),
-        lambda: s.ClearDiagnosticInformationRequest(rng.choice([0xFFFFFF, 0, rng.randrange(1 << 24)])),
-        lambda: s.ReportDTCByStatusMaskRequest(rng.randrange(256), rng.random() < 0.2),
-        lambda: s.ReportNumberOfDTCByStatusMaskRequest(rng.randrange(256)),
-        lambda: s.CommunicationControlRequest(rng.choice([0, 1, 2, 3]), rng.choice([1, 2, 3]), rng.random() < 0.3),
-        lambda: s.ControlDTCSettingRequest(rng.choice([1, 2]), b"", rng.random() < 0.3),
-        lambda: s.ReadMemoryByAddressRequest(rng.randrange(1 << 16), rng.randint(1, 64)),
-        lambda: s.RequestTransferExitRequest(b""),
-        lambda: s.TransferDataRequest(rng.randrange(256), b"\x00\x01"),
-    ]
-    for _ in range(rng.randint(3, 10)):
+
+def run_sync(coro):
+    try:
+        coro.send(None)
+    except StopIteration as e:
+        return e.value
+    coro.close()
+    raise RuntimeError("handle_request suspended (not expected for RandomUDSServer)")
+
+
+def fmt_state(s):
+    return f"{s[0]} {'none' if s[1] is None else s[1]} {'none' if s[2] is None else str(s[2][0]) + ':' + hx(s[2][1])}"
+
+
+def make_env(rng_seed):
+    """import the repo under test, replace `server.time` by a scripted clock and `server.RNG` by a recording subclass
+    (same streams; the unseeded `RNG()` of requestSeed is seeded from a per-server deterministic source)"""
+    from common import setup_repo_import
+
+    setup_repo_import()
+    import gallia.services.uds.server as srv
+    from gallia.services.uds import helpers
+    from gallia.services.uds.core import exception, service
+    from gallia.services.uds.core.constants import UDSIsoServices
+    from gallia.transports import TargetURI
+
+    clock = Clock()
+    srv.time = clock  # `from time import time` in the server module
+    srv.traceback = types.SimpleNamespace(print_exc=lambda *a, **k: None)
+    base = srv.RNG
+    while getattr(base, "_verif_patched", False):
+        base = base.__mro__[1]
+    env = {"srv": srv, "service": service, "helpers": helpers, "exception": exception, "TargetURI": TargetURI, "clock": clock,
+           "UDSIsoServices": UDSIsoServices, "rec": [], "det": random.Random(f"C14-rng:{rng_seed}"), "rng_seed": rng_seed,
+           "parse_cache": {}}
+    rec = env["rec"]
+
+    class RecRNG(base):
+        _verif_patched = True
+
+        def __init__(self, *args):
+            self._in_payload = None
+            if args:
+                super().__init__(*args)
+            else:  # `RNG()` in security_access: seeded from the OS in the original
+                super().__init__("c14", env["det"].getrandbits(64))
+
+        def random_bool(self, p_true):
+            r = super().random_bool(p_true)
+            rec.append(("bool", p_true, bool(r)))
+            return r
+
+        def randint(self, a, b):
+            r = super().randint(a, b)
+            if self._in_payload is not None:
+                self._in_payload["draws"].append((a, b, r))
+            else:
+                rec.append(("int", a, b, r))
+            return r
+
+        def expovariate(self, lambd=1.0):
+            r = super().expovariate(lambd)
+            if self._in_payload is not None:
+                self._in_payload["exp"].append((lambd, r))
+            else:
+                rec.append(("exp", lambd, r))
+            return r
+
+        def random_payload(self, *args, **kwargs):
+            self._in_payload = {"draws": [], "exp": []}
+            try:
+                r = super().random_payload(*args, **kwargs)
+            finally:
+                info, self._in_payload = self._in_payload, None
+            rec.append(("payload", args, dict(kwargs), info["exp"], info["draws"], bytes(r)))
+            return r
+
+    srv.RNG = RecRNG
+    return env
+
+
+def oracle_of(events):
+    """recorded draws of one handler call -> the oracle fields of the Lean model (as protocol tokens) + problems"""
+    problems = []
+    bools = "".join("1" if e[2] else "0" for e in events if e[0] == "bool") or "-"
+    pays = [e for e in events if e[0] == "payload"]
+    ints = [e for e in events if e[0] == "int"]
+    exps = [e for e in events if e[0] == "exp"]
+    paylen, payhex = 0, "-"
+    if pays:
+        if len(pays) > 1:
+            problems.append(f"{len(pays)} random_payload calls in one handler call")
+        _, args, kwargs, pexp, draws, _result = pays[0]
+        if len(pexp) != 1 or abs(pexp[0][0] - 1 / 8) > 1e-12:
+            problems.append(f"random_payload drew expovariate {pexp}")
+        else:
+            paylen = int(pexp[0][1] + 0.5)
+        if any((a, b) != (0, 255) for a, b, _ in draws):
+            problems.append("random_payload draws outside randint(0, 255)")
+        if kwargs.get("max_len") is not None or len(args) > 1:
+            problems.append("random_payload called with max_len")
+        payhex = hx(bytes(r & 0xFF for _, _, r in draws))
+    byte, dtccount, dtcs = 0, 0, "-"
+    if exps:
+        if len(exps) > 1 or abs(exps[0][1] - 1 / 50) > 1e-12:
+            problems.append(f"expovariate calls {[(e[1]) for e in exps]}")
+        dtccount = int(exps[0][2] + 0.5)
+        idx = events.index(exps[0])
+        before = [e for e in events[:idx] if e[0] == "int"]
+        after = [e for e in events[idx + 1:] if e[0] == "int"]
+        if len(before) != 1 or (before[0][1], before[0][2]) != (0, 255):
+            problems.append(f"draws before the DTC count: {before}")
+        else:
+            byte = before[0][3]
+        d = [e[3] for e in after if (e[1], e[2]) == (0, 256 ** 3 - 1)]
+        s = [e[3] for e in after if (e[1], e[2]) == (0, 255)]
+        if len(d) != len(s) or len(d) + len(s) != len(after) or len(d) != dtccount:
+            problems.append(f"DTC loop drew {len(d)} DTCs / {len(s)} status bytes / {len(after)} ints for count {dtccount}")
+        dtcs = ",".join(f"{x}:{y}" for x, y in zip(d, s)) or "-"
+    else:
+        if len(ints) > 1 or any((e[1], e[2]) != (0, 255) for e in ints):
+            problems.append(f"randint calls {[(e[1], e[2]) for e in ints]}")
+        if ints:
+            byte = ints[0][3] & 0xFF
+    return f"{bools} {byte} {paylen} {payhex} {dtccount} {dtcs}", problems
+
+
+class Real:
+    """one real RandomUDSServer behind a real UDSServerTransport"""
+
+    def __init__(self, env, seed, params):
+        self.env = env
+        srv = env["srv"]
+        rp = srv.RandomUDSServer.RandomnessParameters(**params)
+        self.server = srv.RandomUDSServer(seed, rp)
+        self.server.randomize()
+        self.transport = srv.UDSServerTransport(self.server, env["TargetURI"]("tcp-lines://127.0.0.1:1"))
+        self.seed = seed
+        self.params = params
+        self.spec = self.model_spec()
+        self.fresh()
+
+    def fresh(self):
+        """a new connection to a freshly started server: initial state, deterministic seed source"""
+        self.server.state.reset()
+        self.transport.last_time_active = self.env["clock"].t
+        self.env["det"] = random.Random(f"C14-rng:{self.env['rng_seed']}:{self.seed}:{self.spec}")
+        self.last_reply = None
+
+    def model_spec(self):
+        parts = []
+        for sess, svcs in self.server.services.items():
+            es = []
+            for sid, sfs in svcs.items():
+                if sfs is None:
+                    v = "N"
+                elif len(sfs) == 0:
+                    v = "-"
+                else:
+                    v = ".".join(str(int(x)) for x in sfs)
+                es.append(f"{int(sid)}={v}")
+            parts.append(f"{int(sess)}:" + ",".join(es))
+        return ";".join(parts) if parts else "-"
+
+    def get_state(self):
+        st = self.server.state
+        sa = getattr(st, "last_sa_response", None)  # a state object without the attribute is the server's problem, not the observer's
+        return (int(st.session), None if st.security_access_level is None else int(st.security_access_level),
+                None if sa is None else (int(sa.security_access_type), bytes(sa.security_seed)))
+
+    def set_state(self, s):
+        st = self.server.state
+        st.session, st.security_access_level = s[0], s[1]
+        st.last_sa_response = None if s[2] is None else self.env["service"].SecurityAccessResponse(s[2][0], s[2][1])
+
+    def parse(self, pdu):
+        """(class name of UDSRequest.parse_dynamic(pdu), the object)"""
+        c = self.env["parse_cache"]
+        v = c.get(pdu)
+        if v is None:
+            v = self.env["service"].UDSRequest.parse_dynamic(pdu)
+            if len(c) < 300000:
+                c[pdu] = v
+        return v
+
+    def pdu_of(self, item):
+        """resolve a history item to request bytes (SendKey items depend on the previous reply)"""
+        if "pdu" in item:
+            return bytes.fromhex(item["pdu"])
+        t, kind, sup = item["key"]
+        last = self.last_reply
+        seed = last[2:] if last is not None and len(last) >= 2 and last[0] == 0x67 else b""
+        if kind == "right":
+            key = seed
+        elif kind == "wrong":
+            key = bytes((seed[0] ^ 0xFF,)) + seed[1:] if seed else b"\x00"
+        elif kind == "short":
+            key = seed[:-1]
+        else:
+            key = seed + b"\x01"
+        return bytes([0x27, (t & 0x7F) | (0x80 if sup else 0)]) + key
+
+    def client(self, reply, pdu, ctor):
+        """the real acceptance test, with the request object the real parser returns and (when the PDU came from one
+        of gallia's request constructors) with an object of that class"""
+        sv, ex, helpers = self.env["service"], self.env["exception"], self.env["helpers"]
+        reqs = [self.parse(pdu)]
+        if ctor is not None:
+            try:
+                reqs.append(getattr(sv, ctor).from_pdu(pdu))
+            except Exception:
+                pass
+        verdict = "accepted"
+        for r in reqs:
+            try:
+                helpers.parse_pdu(reply, r)
+            except ex.RequestResponseMismatch:
+                return "mismatch"
+            except ex.MalformedResponse:
+                return "malformed"
+            except Exception as e:
+                return "raised:" + type(e).__name__
+        return verdict
+
+    def well_formed(self, reply):
         try:
-            out.append(rng.choice(makers)().pdu)
+            return "1" if self.env["service"].UDSResponse.parse_dynamic(reply).pdu == reply else "0"
         except Exception:
-            pass
+            return "0"
+
+    def step(self, item, force_pre=None):
+        """handle one history item -> observation dict"""
+        clock = self.env["clock"]
+        rec = self.env["rec"]
+        pdu = self.pdu_of(item)
+        clock.t += item.get("adv", 1) * 0.25
+        if force_pre is not None:
+            self.set_state(force_pre)
+        pre = self.get_state()
+        dt = int(round((clock.t - self.transport.last_time_active) * 4))
+        rec.clear()
+        exc = None
+        reply = None
+        try:
+            reply, _dt = run_sync(self.transport.handle_request(pdu))
+        except AssertionError as e:
+            exc = ("assertion", e)
+        except IndexError as e:
+            exc = ("index", e)
+        except BaseException as e:  # noqa: BLE001 - the server must never raise, whatever it is
+            exc = (type(e).__name__, e)
+        events = list(rec)
+        post = self.get_state()
+        orc, problems = oracle_of(events)
+        o = {"pdu": pdu, "pre": pre, "post": post, "dt": dt, "orc": orc, "orc_problems": problems, "reply": reply, "exc": None,
+             "client": "-", "wf": "-", "session_ok": post[0] in self.server.services, "cls": type(self.parse(pdu)).__name__}
+        if exc is not None:
+            o["exc"] = f"{type(exc[1]).__name__}: {str(exc[1])[:160]}"
+            o["impl"] = f"crash {exc[0]} {fmt_state(post)} client=- wf=-"
+            self.last_reply = None
+            return o
+        self.last_reply = reply
+        if reply is None:
+            o["impl"] = f"ok {fmt_state(post)} none client=- wf=-"
+            return o
+        o["client"] = self.client(reply, pdu, item.get("ctor"))
+        o["wf"] = self.well_formed(reply)
+        o["impl"] = f"ok {fmt_state(post)} {hx(reply)} client={o['client']} wf={o['wf']}"
+        return o
+
+    def lean_line(self, o):
+        return f"sreq {fmt_state(o['pre'])} {o['dt']} {hx(o['pdu'])} {o['orc']}"
+
+
+def clauses_broken(o):
+    """the property's own clauses, judged on the real run alone"""
+    out = []
+    if o["exc"] is not None:
+        out.append(("raises", o["exc"].split(":")[0]))
+        return out
+    if not o["session_ok"]:
+        out.append(("left-sessions", "session-not-offered"))
+    if o["reply"] is not None:
+        if o["client"] != "accepted":
+            out.append(("client-refuses", o["client"]))
+        if o["wf"] != "1":
+            out.append(("reply-not-well-formed", "wf=0"))
     return out
 
 
-def history(rng, srv, n, exhaustive_sid=None):
-    """request PDUs; `key` items are filled in from the previous reply by the runner"""
-    h = []
-    sessions = sorted(srv.services.keys())
-    while len(h) < n:
-        r = rng.random()
-        if r < 0.25:
-            h.append(bytes(rng.randrange(256) for _ in range(rng.randint(1, 9))))
-        elif r < 0.45:
-            sid = rng.randrange(256) if exhaustive_sid is None else exhaustive_sid
-            h.append(bytes([sid]) + bytes(rng.randrange(256) for _ in range(rng.randint(0, 8))))
-        elif r < 0.55:
-            h.append(bytes([0x10, rng.choice(sessions)]))
-        elif r < 0.63:
-            lvl = rng.choice([1, 3, 5, 0x11, 0x41])
-            h.append(bytes([0x27, lvl]))
-            if rng.random() < 0.5:
-                h.append(b"\x3e\x00")
-            h.append(("key", lvl + 1, rng.choice(["right", "right", "wrong", "short"])))
-        else:
-            h.extend(structured_requests(rng, srv))
-    return h[: n + 4]
-
-
-async def drive(srv, hist, clock=None):
-    """through UDSServerTransport.handle_request; returns observations"""
-    from gallia.services.uds import helpers
-    from gallia.services.uds.core import service
-    from gallia.services.uds.server import UDSServerTransport
-    from gallia.transports.base import TargetURI
-
-    tr = UDSServerTransport(srv, TargetURI("fake://srv"))
-    obs = []
-    last = None
-    for item in hist:
-        if isinstance(item, tuple):
-            seed = last[2:] if last is not None and len(last) >= 2 and last[0] == 0x67 else b"\x00"
-            key = seed if item[2] == "right" else (bytes(len(seed)) + b"\x01" if item[2] == "wrong" else seed[:-1])
-            pdu = bytes([0x27, item[1]]) + key
-        else:
-            pdu = item
-        o = {"req": pdu.hex(), "reply": None, "exc": None, "session_ok": True, "client": None}
-        try:
-            reply, _t = await tr.handle_request(pdu)
-        except BaseException as e:  # the server must never raise
-            o["exc"] = type(e).__name__ + ": " + str(e)[:120]
-            obs.append(o)
-            last = None
-            continue
-        o["session_ok"] = srv.state.session in srv.services
-        if reply is None:
-            o["client"] = "suppressed"
-            last = None
-        else:
-            o["reply"] = reply.hex()
-            last = reply
-            try:
-                req_obj = service.UDSRequest.parse_dynamic(pdu)
-                helpers.parse_pdu(reply, req_obj)
-                o["client"] = "accepted"
-            except BaseException as e:
-                o["client"] = type(e).__name__
-        obs.append(o)
-    return obs
-
-
-async def drive_client_loop(srv, pdus):
-    """through TCPUDSServerTransport.handle_client on in-memory streams: does the connection survive?"""
-    import gallia.services.uds.server as S
-    from gallia.transports.base import TargetURI
-
+async def drive_client_loop(real, items):
+    """the same history through TCPUDSServerTransport.handle_client on in-memory streams: one line per request.
+    -> (alive at the end, index of the request during which the connection was dropped | None, per-request reply
+    lines (bytes | None), the exception the connection loop swallowed)"""
     from vloop import MemWriter
 
-    S.traceback = types.SimpleNamespace(print_exc=lambda *a, **k: None)
-    t = S.TCPUDSServerTransport(srv, TargetURI("tcp-lines://127.0.0.1:20162"))
+    S = real.env["srv"]
+    caught = []
+    orig_error = S.logger.error
+
+    def spy(msg, *a, **k):
+        caught.append(str(msg)[:200])
+
+    S.logger.error = spy
+    real.fresh()
+    t = S.TCPUDSServerTransport(real.server, real.env["TargetURI"]("tcp-lines://127.0.0.1:20162"))
+    t.last_time_active = real.env["clock"].t
     reader = asyncio.StreamReader()
     writer = MemWriter()
     task = asyncio.ensure_future(t.handle_client(reader, writer))
-    answered_before_close = None
-    for i, p in enumerate(pdus):
-        reader.feed_data(p.hex().encode() + b"\n")
-        for _ in range(6):
-            await asyncio.sleep(0)
-        if task.done() and answered_before_close is None:
-            answered_before_close = i
-    alive = not task.done()
-    reader.feed_eof()
+    dropped_at = None
+    replies = []
+    seen = 0
     try:
-        await asyncio.wait_for(task, 1.0)
-    except BaseException:
-        pass
-    return alive, answered_before_close, writer.data.count(b"\n")
+        for i, item in enumerate(items):
+            pdu = real.pdu_of(item)
+            real.env["clock"].t += item.get("adv", 1) * 0.25
+            reader.feed_data(pdu.hex().encode() + b"\n")
+            for _ in range(8):
+                await asyncio.sleep(0)
+            lines = writer.data.split(b"\n")[:-1]
+            new = lines[seen:]
+            seen = len(lines)
+            rep = bytes.fromhex(new[0].decode()) if new else None
+            replies.append(rep)
+            real.last_reply = rep
+            if task.done() and dropped_at is None:
+                dropped_at = i
+                break
+        alive = not task.done()
+        reader.feed_eof()
+        try:
+            await asyncio.wait_for(task, 1.0)
+        except BaseException:  # noqa: BLE001
+            pass
+    finally:
+        S.logger.error = orig_error
+    return alive, dropped_at, replies, caught
